@@ -821,9 +821,15 @@ func c13CodecCase(c *core.Ctx, part int) {
 			}
 			return
 		}
-		dec, err := boltz.DecodeStringSlice(enc)
+		// decoded from a buffer the caller uses again afterwards (a key read inside a transaction, a reused scratch
+		// buffer): the decoded strings are the caller's, they stay what they were
+		buf := append([]byte{}, enc...)
+		dec, err := boltz.DecodeStringSlice(buf)
+		for i := range buf {
+			buf[i] = 'Z'
+		}
 		if err != nil || !reflect.DeepEqual(normNil(dec), normNil(l)) {
-			c.Violationf("C13 compound key: round trip", short(l), "list %s encoded to %x decoded to %s err=%v", short(l), trunc(enc), short(dec), err)
+			c.Violationf("C13 compound key: round trip (the encoded buffer is overwritten after decoding)", short(l), "list %s encoded to %x decoded to %s err=%v", short(l), trunc(enc), short(dec), err)
 		}
 		if prev, dup := seen[string(enc)]; dup && !reflect.DeepEqual(normNil(prev), normNil(l)) {
 			c.Violationf("C13 compound key: two lists share an encoding", short(l), "%s and %s both encode to %x", short(prev), short(l), trunc(enc))
